@@ -154,6 +154,58 @@ def _judge_plugin(case):
     return None
 
 
+# several test files in one real session: which files need an added import (and a persisted external) varies with the file order
+MULTI_KINDS = {
+    "plain": "def test_x():\n    assert [1, 'a'] == snapshot()\n",
+    "hasrepr": "class Opq:\n    def __repr__(self):\n        return '<Opq>'\n\n    def __eq__(self, other):\n        return isinstance(other, Opq) or NotImplemented\n\n\ndef test_x():\n    assert [Opq()] == snapshot()\n",
+    "external": "def test_x():\n    assert outsource('data-%(i)d') == snapshot()\n",
+    "both": "class Opq:\n    def __repr__(self):\n        return '<Opq>'\n\n    def __eq__(self, other):\n        return isinstance(other, Opq) or NotImplemented\n\n\ndef test_x():\n    assert {'k': Opq(), 'e': outsource(b'bin-%(i)d')} == snapshot()\n",
+    "good": "def test_x():\n    assert 5 == snapshot(5)\n",
+}
+
+
+def _multi_cases(tier):
+    import itertools
+
+    kinds = list(MULTI_KINDS)
+    out = []
+    for n in ((2, 3) if tier == "quick" else (2, 3, 4)):
+        for combo in itertools.product(kinds, repeat=n):
+            if not set(combo) & {"hasrepr", "external", "both"} or (n == 4 and tier != "thorough"):
+                continue
+            out.append({"multi": list(combo)})
+    return out
+
+
+def _judge_multi(case):
+    from ..drivers import plugin
+
+    files = {"test_f%d.py" % i: "from inline_snapshot import snapshot, outsource\n\n\n" + MULTI_KINDS[k] % {"i": i} for i, k in enumerate(case["multi"])}
+    d = plugin.mk_project(dict(files, **{"pyproject.toml": ""}))
+    try:
+        r1 = plugin.session(d, ["--inline-snapshot=create"])
+        after = plugin.listing(d, text=True)
+        r2 = plugin.session(d, ["--inline-snapshot=disable"])
+        r3 = plugin.session(d, [])
+    finally:
+        plugin.cleanup()
+    detail = "\n--- after ---\n%s\n--- disable run ---\n%s" % ("\n".join("# %s\n%s" % (k, after.get(k, "")[-400:]) for k in files), r2["out"][-700:])
+    if plugin.internal_error(r1["out"]) or r1["rc"] not in (0, 1):
+        return ("internal-error", "rc=%s %s" % (r1["rc"], r1["out"][-500:]) + detail)
+    for i, k in enumerate(case["multi"]):
+        fn = "test_f%d.py" % i
+        if k != "good" and after.get(fn) == files[fn]:
+            return ("not-created", fn + detail)
+        got = r2["outcomes"].get(fn + "::test_x", [])
+        if got != ["PASSED"]:
+            return ("disabled-rerun-fails", "%s outcomes=%s" % (fn, got) + detail)
+    if r2["rc"] != 0:
+        return ("disabled-rerun-fails", "rc=%s" % r2["rc"] + detail)
+    if r3["rc"] != 0:
+        return ("plain-rerun-fails", "rc=%s %s" % (r3["rc"], r3["out"][-500:]) + detail)
+    return None
+
+
 def build(tier, seed):
     cases = _cases(tier)
     groups = {}
@@ -166,6 +218,9 @@ def build(tier, seed):
     pc = _plugin_cases(tier)
     for i in range(0, len(pc), 5):
         tasks.append({"plugin": pc[i : i + 5]})
+    mc = _multi_cases(tier)
+    for i in range(0, len(mc), 5):
+        tasks.append({"multi": mc[i : i + 5]})
     return tasks
 
 
@@ -222,6 +277,9 @@ def run_case(case):
         vs, src, r = _judge(case["batch"], bool(case.get("clean")))
         bv = vs[case["index"]]
         return [] if bv is None else [{"case": case, "what": "only-next-to-other-sites:" + bv[0], "detail": bv[1][:600]}]
+    if "multi" in case:
+        v = _judge_multi(case)
+        return [{"case": case, "what": v[0], "detail": v[1]}] if v else []
     if "hdr" in case:
         v = _judge_plugin(case)
         return [{"case": case, "what": v[0], "detail": v[1]}] if v else []
@@ -236,6 +294,17 @@ def _sig(case, verdict):
 
 
 def run_task(task):
+    if "multi" in task:
+        out = {"n": 0, "nontrivial": [], "outcomes": {}, "violations": [], "samples": []}
+        for c in task["multi"]:
+            out["n"] += 1
+            vs = run_case(c)
+            lab = "viol:" + vs[0]["what"] if vs else "ok:multi-file-session"
+            out["violations"] += vs
+            if not vs:
+                out["nontrivial"].append("multi|%s" % "|".join(c["multi"]))
+            out["outcomes"][lab] = out["outcomes"].get(lab, 0) + 1
+        return out
     if "plugin" in task:
         out = {"n": 0, "nontrivial": [], "outcomes": {}, "violations": [], "samples": []}
         for c in task["plugin"]:
